@@ -135,11 +135,37 @@ pub fn run(ctx: &Ctx) -> Result<(), String> {
     let lt_pk = crypto::public_key(&crate::inproc::DEFAULT_SEED);
     let failed: Mutex<Option<String>> = Mutex::new(None);
     let live = AtomicU64::new(0);
-    for bs in [1u8, 3] {
+    // mid-step arrivals: a request that reaches the socket while the worker is inside a wake-up (at
+    // the polled / collected / sent point) is answered by a later batch of that wake-up; its
+    // midpoint is the clock at THAT batch's signing, so not earlier than the request's send time
+    let mut inject_hist: Vec<Vec<c09::Ev>> = vec![];
+    {
+        let pre = [c09::Ev::Req(0, Version::Classic), c09::Ev::Req(1, Version::Classic), c09::Ev::Req(0, Version::Ietf13)];
+        let mut prefixes: Vec<Vec<c09::Ev>> = vec![vec![]];
+        for a in pre {
+            prefixes.push(vec![a]);
+            for b in pre {
+                prefixes.push(vec![a, b]);
+            }
+        }
+        for p in &prefixes {
+            for pt in 0..3u8 {
+                for sock in 0..2usize {
+                    for v in [Version::Classic, Version::Ietf13] {
+                        let mut h = p.clone();
+                        h.push(c09::Ev::StepInject(pt, sock, v));
+                        inject_hist.push(h);
+                    }
+                }
+            }
+        }
+    }
+    for bs in [1u8, 2, 3] {
         let cfg = SrvCfg { batch_size: bs, ..Default::default() };
-        let n = al.len().pow(depth as u32);
+        let n = al.len().pow(depth as u32) + inject_hist.len();
         par_for(n, 16, |idx, _| {
-            let h = c09::history_from_index(idx, depth, &al);
+            let nplain = al.len().pow(depth as u32);
+            let h = if idx < nplain { c09::history_from_index(idx, depth, &al) } else { inject_hist[idx - nplain].clone() };
             let mut srv = match Srv::new(&cfg) {
                 Ok(s) => s,
                 Err(e) => {
@@ -189,7 +215,7 @@ pub fn run(ctx: &Ctx) -> Result<(), String> {
     ctx.cov("distinct_nontrivial", json!(nontrivial.load(Relaxed)));
     ctx.cov("live_replies_bracketed", json!(live.load(Relaxed)));
     ctx.cov("exhaustive", json!(true));
-    ctx.cov("rule", json!("grid: make_srep(version, clock, root) for clock seconds {0,1,59,60,1e9,2^31-1,2^31,2^32-1,2^32,year 2200,year 9999,2^40} x nanos {0,1,999,1000,1001,499999999,999999,1000000,999999000,999999999} (thorough: + every second of 2024-02-29 x {0,999999999}) x both versions, second SREP on a key that already signed one: MIDP == floor(clock / unit) (microseconds classic, seconds IETF), RADI == 5 s in that unit, ROOT echoed, IETF VER/VERS present, SIG verifies under the online key with the response context. Live: every authentic reply of all C09 event histories of the tier's depth (batch_size 1 and 3) is bracketed per reply by harness clock readings taken just before its request was sent and when the reply was drained (after the step that produced it)."));
+    ctx.cov("rule", json!("grid: make_srep(version, clock, root) for clock seconds {0,1,59,60,1e9,2^31-1,2^31,2^32-1,2^32,year 2200,year 9999,2^40} x nanos {0,1,999,1000,1001,499999999,999999,1000000,999999000,999999999} (thorough: + every second of 2024-02-29 x {0,999999999}) x both versions, second SREP on a key that already signed one: MIDP == floor(clock / unit) (microseconds classic, seconds IETF), RADI == 5 s in that unit, ROOT echoed, IETF VER/VERS present, SIG verifies under the online key with the response context. Live: every authentic reply of all C09 event histories of the tier's depth (batch_size 1, 2 and 3), plus 156 histories per batch size that end with a request arriving INSIDE a wake-up (at the polled / collected / sent hook point, after 0..2 queued requests), is bracketed per reply by harness clock readings taken just before its request was sent (for a mid-step arrival: at the hook point) and when the reply was drained (after the step that produced it)."));
     ctx.sample(json!({"kind":"grid","version":"classic","secs":2147483648u64,"nanos":999999999}));
     ctx.sample(json!({"kind":"live","version":"ietf13","events":["I0","C1","step","I1"]}));
     ctx.assume("the harness and the in-process server read the same system clock; the clock does not step backwards during a history");
